@@ -581,7 +581,7 @@ func (b *BaseStore) Load(ctx context.Context, amount int) error {
 			span.AddEvent("store-head-loaded")
 
 			span.AddEvent("store-heads-joining")
-			if _, inErr = oplog.Join(l, amount); inErr != nil {
+			if inErr = b.joinWithLimit(oplog, l, amount); inErr != nil {
 				span.AddEvent("store-heads-joining-failed")
 				// err = fmt.Errorf("unable to join log: %w", err)
 				// TODO: log
@@ -614,6 +614,33 @@ func (b *BaseStore) Load(ctx context.Context, amount int) error {
 	}
 
 	return nil
+}
+
+// joinWithLimit merges l into oplog and keeps at most amount entries (all of
+// them when amount is negative). ipfslog's Join panics when asked to keep
+// more entries than the merged log holds, so the merge is done without a limit
+// and the log is only trimmed afterwards if it is longer than amount.
+func (b *BaseStore) joinWithLimit(oplog ipfslog.Log, l ipfslog.Log, amount int) error {
+	if _, err := oplog.Join(l, -1); err != nil {
+		return err
+	}
+
+	if amount < 0 || oplog.Values().Len() <= amount {
+		return nil
+	}
+
+	empty, err := ipfslog.NewLog(b.IPFS(), b.Identity(), &ipfslog.LogOptions{
+		ID:               oplog.GetID(),
+		AccessController: b.AccessController(),
+		SortFn:           b.SortFn(),
+		IO:               b.options.IO,
+	})
+	if err != nil {
+		return err
+	}
+
+	_, err = oplog.Join(empty, amount)
+	return err
 }
 
 func (b *BaseStore) Sync(ctx context.Context, heads []ipfslog.Entry) error {
